@@ -117,7 +117,8 @@ func runListenScenario(t *testing.T, id string, monitor bool, script []scriptRea
 		conn := newVConn()
 		state := newVState()
 		state.forwarding["v0"] = true
-		cfg := config.Interface{Name: "v0", Advertise: !monitor, Monitor: monitor, MinInterval: 200 * time.Second, MaxInterval: 600 * time.Second,
+		v09Seq++
+		cfg := config.Interface{Name: "v0", Advertise: !monitor, Monitor: monitor, Verbose: v09Seq%2 == 0, MinInterval: 200 * time.Second, MaxInterval: 600 * time.Second,
 			HopLimit: 64, DefaultLifetime: 1800 * time.Second, Plugins: []plugin.Plugin{&plugin.LLA{}}}
 		mm := NewMetrics(metricslite.NewMemory(), "test", time.Time{}, state, []config.Interface{cfg})
 		cctx := NewContext(log.New(io.Discard, "", 0), mm, state)
@@ -243,6 +244,9 @@ func runListenScenario(t *testing.T, id string, monitor bool, script []scriptRea
 
 // TestVerifC09 feeds scripted read sequences (every hop limit, every message type, runs of invalid
 // messages beyond the retry budget, timeouts, failures) to a real advertiser and a real monitor.
+// every other run is in verbose mode (more is logged; what is ignored, counted and answered is the same)
+var v09Seq int
+
 func TestVerifC09(t *testing.T) {
 	out := verifh.Open()
 	defer out.Close()
